@@ -109,10 +109,28 @@ fn compile(files: &[(String, String)]) -> Outcome {
         match p.emit_code() {
             Ok(code) => {
                 if code.trim().is_empty() {
-                    Outcome::Bad("no diagnostics, and emit_code() returned an empty module".into())
-                } else {
-                    Outcome::Code
+                    return Outcome::Bad("no diagnostics, and emit_code() returned an empty module".into());
                 }
+                // every named runtype of the emitted module is defined exactly once
+                if let Some(start) = code.find("const namedRuntypes = {") {
+                    let rest = &code[start..];
+                    if let Some(end) = rest.find("};") {
+                        let mut keys: Vec<String> = vec![];
+                        for l in rest[..end].lines().skip(1) {
+                            let l = l.trim();
+                            if let Some(l2) = l.strip_prefix('"') {
+                                if let Some(q) = l2.find('"') {
+                                    let k = l2[..q].to_string();
+                                    if keys.contains(&k) {
+                                        return Outcome::Bad(format!("the emitted module defines the named runtype {:?} twice", k));
+                                    }
+                                    keys.push(k);
+                                }
+                            }
+                        }
+                    }
+                }
+                Outcome::Code
             }
             Err(e) => Outcome::Bad(format!("no diagnostics, but emit_code() failed: {}", e)),
         }
@@ -137,11 +155,13 @@ interface I1 { a: string; m?: I1 }
 interface I2 extends I1 { b: number }
 type GC<T extends string> = { [K in T]: K };
 type Fn = (x: number) => string;
+type Shape = { kind: "circle", r: number } | { kind: "square", x: number } | { kind: "triangle", x: number, y: number };
+type KC = { kind: "circle" };
 "#;
 fn leaves() -> Vec<&'static str> {
     vec![
         "string", "number", "boolean", "null", "undefined", "\"a\"", "1", "true", "any", "unknown", "never", "Date", "bigint", "void",
-        "O", "O2", "U", "Tup", "Rec", "RT", "Alias", "G<string>", "D1", "D2", "RS", "RM", "En", "I1", "I2", "GC<U>", "Fn", "object", "symbol",
+        "O", "O2", "U", "Tup", "Rec", "RT", "Alias", "G<string>", "D1", "D2", "RS", "RM", "En", "I1", "I2", "GC<U>", "Fn", "object", "symbol", "Shape", "KC",
     ]
 }
 fn unary(e: &str) -> Vec<String> {
@@ -214,6 +234,16 @@ fn programs(depth: usize) -> Vec<(String, Vec<(String, String)>)> {
         ("generic recursion", vec![("entry.ts", "type L<T> = { v: T, n: L<T> | null };\ntype X = L<string>;\nparse.buildParsers<{ X: X }>();\n")]),
         ("template literal", vec![("entry.ts", "type X = `a${string}` | `${number}px`;\ntype Y = Exclude<X, \"ab\">;\nparse.buildParsers<{ X: X, Y: Y }>();\n")]),
         ("typeof const", vec![("entry.ts", "const c = { a: 1, b: [\"x\", 2] } as const;\ntype X = typeof c;\ntype K = keyof typeof c;\nparse.buildParsers<{ X: X, K: K }>();\n")]),
+        ("three files export a generic type of the same name, nested directories", vec![("users/api/page.ts", "export type Page<T> = { items: T[], next: string };\n"), ("admin/users/api/page.ts", "export type Page<T> = { items: T[], total: number };\n"), ("admin/audit.ts", "export type Page<T> = { entries: T[] };\n"),
+            ("entry.ts", "import { Page as A } from \"./users/api/page\";\nimport { Page as B } from \"./admin/users/api/page\";\nimport { Page as C } from \"./admin/audit\";\nparse.buildParsers<{ A: A<string>, B: B<string>, C: C<string> }>();\n")]),
+        ("three files export a plain type of the same name, nested directories", vec![("users/api/page.ts", "export type Page = { items: string[], next: string };\n"), ("admin/users/api/page.ts", "export type Page = { items: string[], total: number };\n"), ("admin/audit.ts", "export type Page = { entries: string[] };\n"),
+            ("entry.ts", "import { Page as A } from \"./users/api/page\";\nimport { Page as B } from \"./admin/users/api/page\";\nimport { Page as C } from \"./admin/audit\";\nparse.buildParsers<{ A: A, B: B, C: C }>();\n")]),
+        ("two Exclude results over different recursive object types in one program", vec![("entry.ts", "type T = { v: string, next: T | null };\ntype U = { v: number, next: U | null };\ntype A = Exclude<T | string, string>;\ntype B = Exclude<U | string, string>;\nparse.buildParsers<{ A: A, B: B }>();\n")]),
+        ("two Exclude results over recursive types nested at different depths", vec![("entry.ts", "type L1 = { v: string, children: L1[] };\ntype L2 = { v: number, children: L2[] };\ntype W1 = { inner: { deep: L1 } } | number;\ntype W2 = { inner: L2 } | number;\ntype X1 = Exclude<W1, number>;\ntype X2 = Exclude<W2, number>;\nparse.buildParsers<{ X1: X1, X2: X2 }>();\n")]),
+        ("three semantic computations over recursive types: Exclude, keyof, indexed access", vec![("entry.ts", "type T = { a: string, next: T | null };\ntype U = { prev: U | null, w: number };\ntype X = Exclude<T | string, string>;\ntype Y = Exclude<U | string, string>;\ntype K = keyof T;\ntype I = U[\"prev\"];\nparse.buildParsers<{ X: X, Y: Y, K: K, I: I }>();\n")]),
+        ("the same recursive Exclude requested twice under two names", vec![("entry.ts", "type T = { v: string, next: T | null };\ntype A = Exclude<T | string, string>;\ntype B = Exclude<T | string, string>;\nparse.buildParsers<{ A: A, B: B }>();\n")]),
+        ("four files export a type of the same name at different depths", vec![("a/t.ts", "export type T = { a: string };\n"), ("b/a/t.ts", "export type T = { b: string };\n"), ("c/b/a/t.ts", "export type T = { c: string };\n"), ("t.ts", "export type T = { d: string };\n"),
+            ("entry.ts", "import { T as T1 } from \"./a/t\";\nimport { T as T2 } from \"./b/a/t\";\nimport { T as T3 } from \"./c/b/a/t\";\nimport { T as T4 } from \"./t\";\nparse.buildParsers<{ T1: T1, T2: T2, T3: T3, T4: T4 }>();\n")]),
     ];
     for (d, fs) in mf {
         out.push((d.to_string(), fs.into_iter().map(|(a, b)| (a.to_string(), b.to_string())).collect()));
@@ -300,7 +330,7 @@ fn child(depth: usize, from: u64, only: Option<u64>, timeout_s: u64) {
     std::process::exit(0);
 }
 fn fail_json(case: u64, descr: &str, files: &[(String, String)], why: &str) -> String {
-    let src: Vec<String> = files.iter().map(|(n, t)| format!("// {}\n{}", n, t.replace(PRELUDE, "/* prelude types O, O2, U, Tup, Rec, RT, G<T>, Alias, D1, D2, RS, RM, En, I1, I2, GC<T>, Fn */\n"))).collect();
+    let src: Vec<String> = files.iter().map(|(n, t)| format!("// {}\n{}", n, t.replace(PRELUDE, "/* prelude types O, O2, U, Tup, Rec, RT, G<T>, Alias, D1, D2, RS, RM, En, I1, I2, GC<T>, Fn, Shape, KC */\n"))).collect();
     format!("{{\"case\":{},\"input\":{:?},\"observed\":{:?},\"required\":{:?}}}", case, format!("{} :: {}", descr, src.join("\n")), why,
         "compilation returns promptly with generated code or well-located diagnostics; it never panics, crashes or loops")
 }
